@@ -97,3 +97,19 @@ def mseOp [SMul α V] [SMul α Y] (f b : α) (Fsum : DOp (V × V) Y) : DOp (V ×
 
 end
 end USModel
+
+namespace USModel
+section
+variable {α V : Type}
+
+/-- What plain `torch.fx.symbolic_trace` records for `_ScaledGrad.apply(X, fwd, bwd)`: the single
+    multiplication `fwd * X` of its `forward`; autograd then differentiates that multiplication, so
+    the traced op's backward multiplies by the *forward* scale. -/
+def fxTracedScale [SMul α V] (fwd : α) : DOp V V := ⟨fun x => fwd • x, fun _ g => fwd • g⟩
+
+/-- eager (and TorchDynamo, which keeps the autograd.Function): forward scale on the value,
+    the saved backward scale — rounded to the input dtype by `round` — on the gradient -/
+def eagerScale [SMul α V] (round : α → α) (fwd bwd : α) : DOp V V := ⟨fun x => fwd • x, fun _ g => round bwd • g⟩
+
+end
+end USModel
